@@ -10,7 +10,7 @@ ORACLE_RULE = ("C12: streams with single, multiple and multi-bucket gaps x timef
                "the same with a lifespan (the held candles are the tail of the filled series), with the Heikin-Ashi type on (the inserted candles carry the RAW previous close), and for every manager of a Hexital "
                "with timeframe_fill whose members name several timeframes")
 ASSUMPTIONS = ["timestamps are naive datetimes at second resolution; TZ=UTC for this check"]
-PARTIAL = ''
+PARTIAL = 'full strength at the manager level; members of a gap-filling Hexital: every member manager = fillSpec of the raw stream at its effective timeframe under any program (member_schedule_readings)'
 _case = om.make_case(ID, tf=True, fill=True)
 _case_ha = om.make_case(ID, tf=True, fill=True, ha=True)
 # with a lifespan the held candles are the tail of the filled series (filling happens before trimming, whatever the schedule)
